@@ -161,6 +161,7 @@ def run(ctx):
                  "harness/translate_getqubo.py (ast -> Gallina printer for numpy/scipy matrix expressions, `is None` / truth-value "
                  "tests, raise/return, into the value combinators of coq/theories/PyMat.v, whose dense meaning of "
                  "transpose/dot/diags/atleast_1d/+/* is modelled, not verified)")
+    from props import pysem; pysem.run(ctx, pysem.GROUPS_FOR.get(ctx.pid, ()))
     rng = ctx.rng
     count = 300 if ctx.quick else 3000
     max_n = 14 if ctx.quick else 16
